@@ -147,6 +147,10 @@ func postC05(res *RunResult) {
 	postNoPanic(res)
 	for i, c := range res.Stats.cases {
 		out := res.Stats.impl[i]
+		if strings.HasPrefix(out, "fault-swallowed") {
+			addViolation(res, c, out, "Encode reported success although the writer failed: the bytes written are not the whole stream ("+out+")")
+			continue
+		}
 		f := strings.Split(out, " ")
 		if len(f) != 4 || f[0] != "ok" {
 			continue
